@@ -2,6 +2,7 @@
 //! through the `verif-hooks` feature.
 mod c01;
 mod c02;
+mod c08;
 mod c10;
 mod driver_rig;
 mod exec;
@@ -27,6 +28,7 @@ fn dispatch(id: &str, tier: Option<&str>) {
     match id {
         "C01" => c01::main(tier),
         "C02" => c02::main(tier),
+        "C08" => c08::main(tier),
         "C10" => c10::main(tier),
         _ => {
             eprintln!("usage: vcheck-node <C01|...> [quick|thorough]");
